@@ -169,8 +169,13 @@ CHECKS = {
         text="Lean theorems on the header map (get_after_set under any letter case, one_entry_per_name, name_case_insensitive) and on the Date "
              "arithmetic: date_roundtrip (toSecs (civil t) = t for every instant, no upper bound: 400-year cycle argument over a model that "
              "transcribes httpdate's two conversions), date_injective, date_fields_in_range (month, day of month, weekday), date_time_of_day. "
-             "The mailbox round trip (display, then the chumsky grammar transcribed as a PEG, then Address::new) is stated in Props/C17.lean "
-             "and not proved: partial. It is tied by the correspondence check: the "
+             "The mailbox grammar round trip (display, then the chumsky grammar transcribed as a PEG, then Address::new) is proved for the address: "
+             "mailbox_address_roundtrip and mailbox_list_roundtrip (for every mailbox / non-empty list whose addresses are dot-atom@dot-atom and "
+             "EVERY display name - quotes, commas, angle brackets, CR, LF, NUL included - Display does not fail and FromStr returns the same "
+             "addresses in the same order), display_name_is_one_phrase, address_class_sound (Proofs/Peg.lean: ~1000 lines over the combinators). "
+             "Partial: that the NAME read back equals the stored name, and addresses with a quoted local part or a domain literal, are not "
+             "proved; the check reports per real mailbox whether it is in the proved class (evidence ok_notes cls=proved / cls=checked-only). "
+             "All of it is tied by the correspondence check: the "
              "Display model, the PEG model (grammar observed through a hook, on valid and malformed texts), the date model (first and last "
              "second of every month 1970..9999; every day in thorough) each agree with the code, and the property itself (display -> parse, "
              "serde, Headers set -> get and remove, the display name and RFC 2231 file name decoded from the wire form by independent readers) is "
@@ -178,21 +183,23 @@ CHECKS = {
         design_ref="DESIGN.md 5 C17",
         note="Trusted: Lean kernel; axioms propext/Quot.sound/Classical.choice; Spec/StructuredDec.lean; the mime crate (A4); model + harness. Three "
              "defects fixed in /repo (CR/LF/NUL names, quoted local parts, address literals).",
-        technique="Lean 4 proof (header map; date arithmetic round trip for all instants) + model-vs-code correspondence of display, PEG grammar and date arithmetic with property oracles"),
+        technique="Lean 4 proof (header map; date arithmetic round trip for all instants; PEG grammar o Display preserves dot-atom addresses under every name) + model-vs-code correspondence of display, PEG grammar and date arithmetic with property oracles"),
     "C01": dict(
         category="proof",
         text="Lean theorems: builder_refines_spec (for every sequence of builder calls the code's text store - re-parse, join, re-display "
              "on every call: Model/Builder.lean - gives exactly what the typed store demands: same error, or same envelope and Bcc decision, "
-             "never a panic; hypothesis EmailsRoundTrip: the addresses involved survive Display followed by parsing, the address part of "
-             "C17's mailbox round trip, evaluated per generated mailbox and list by the correspondence check), display_total (Display never "
+             "never a panic; hypothesis EmailsRoundTrip: the addresses involved survive Display followed by parsing), "
+             "builder_refines_spec_dot_atoms (the same with no hypothesis for every program over dot-atom@dot-atom addresses and any names: "
+             "EmailsRoundTrip is a theorem there, Proofs/Peg.lean emails_round_trip), display_total (Display never "
              "fails), and the decision logic of the typed store stated outright: spec_errors_exact, spec_envelope_exact (To, Cc, Bcc in "
-             "order; Sender else single From), spec_explicit_envelope, spec_calls_accumulate. Partial: EmailsRoundTrip itself (grammar o "
-             "Display on addresses) is not proved. Correspondence: random builder programs of 1..14 calls over adversarial names "
+             "order; Sender else single From), spec_explicit_envelope, spec_calls_accumulate. Partial: for addresses with a quoted local part "
+             "or a domain literal EmailsRoundTrip is not proved (checked per case; evidence ok_notes cls=proved / cls=checked-only counts the "
+             "programs inside / outside the proved class). Correspondence: random builder programs of 1..14 calls over adversarial names "
              "and every address class; both the model of the code and the typed-store specification are compared with Message::envelope(), "
              "the error kind, and the presence of Bcc in the formatted header section.",
         design_ref="DESIGN.md 5 C01",
         note="Trusted: Lean kernel; axioms propext/Quot.sound/Classical.choice; Builder.specBuild as the meaning of the property; model + harness.",
-        technique="Lean 4 proof (refinement of the text-store model to the typed-store specification under an explicit round-trip hypothesis; decision logic of the specification) + model-and-spec-vs-code correspondence on random builder programs"),
+        technique="Lean 4 proof (refinement of the text-store model to the typed-store specification; its round-trip hypothesis proved for dot-atom addresses from the PEG grammar model; decision logic of the specification) + model-and-spec-vs-code correspondence on random builder programs"),
     "C11": dict(
         category="proof",
         text="Lean theorems on the formatting model: parse_format / parse_format_multipart / parse_message (the RFC 2046 reader of "
